@@ -130,16 +130,16 @@ func fileStages(o *kit.Out, r *kit.Rand, dir string, idx int) {
 		got := counts["s"+strconv.Itoa(i)]
 		o.Count("file-stage", fmt.Sprintf("constant %d per %dms", s.k, s.iv))
 		// one iteration of the stage before may have been claimed just before that stage ended and run
-		// its body after this stage's parameter appeared (a starved process): one more is allowed for
+		// its body after this stage's parameter appeared (a starved process): a slack of one
 		if got > allowed+1 {
-			o.Fail("stage-evaluated-too-often", fmt.Sprintf("stage %d of a config file (%d/%dms for %dms, after %d ms of earlier stages): %d iterations started while its parameter was set; 1 + floor(%dms/%dms) evaluations of %d allow %d\n%s",
-				i+1, s.k, s.iv, s.d, func() (e int64) {
-					for _, p := range sts[:i] {
-						e += p.d
-					}
-					return
-				}(), got, s.d-20, s.iv, s.k, allowed, yaml))
+			o.Fail("stage-evaluated-too-often", fmt.Sprintf("stage %d of a config file (%d/%dms for %dms): %d iterations started while its parameter was set; 1 + floor(%dms/%dms) evaluations of %d allow %d\n%s",
+				i+1, s.k, s.iv, s.d, got, s.d-20, s.iv, s.k, allowed, yaml))
 		}
+		tags := []string{"file-stage"}
+		if i > 0 {
+			tags = append(tags, "nt")
+		}
+		o.Case("stage_count_ok", []string{kit.I(s.k), kit.I(s.iv), kit.I(s.d - 20), kit.I(got), "1"}, "T", tags...)
 	}
 	o.AddStat("file-iterations", total.Load())
 }
